@@ -168,3 +168,15 @@ static inline void h_uncond_epilogue(myth_uncond_t * u) {
   MV_CHECK(u->th == 0, "a re-initialised uncondition variable holds a thread");
   rc = myth_uncond_destroy(u); MV_CHECK(rc == 0, "second myth_uncond_destroy returned %d", rc);
 }
+
+/* ---- a user-supplied steal function (public wsapi): peeks at the next worker's queue, then takes from it with a decision callback that
+   declines every other offer.  Installed for a share of the programs on >= 2 workers: whatever the primitive under test wakes up must
+   still be resumed when steals go through this path. ---- */
+static int h_decide_cnt;
+static int h_decide(myth_thread_t th, void * u) { (void)th; (void)u; return (h_decide_cnt++ & 1); }
+static myth_thread_t h_custom_steal(int rank) {
+  int nw = myth_get_num_workers(), victim = (rank + 1) % nw; size_t sz = 0;
+  (void)myth_wsapi_runqueue_peek(victim, 0, &sz);
+  return myth_wsapi_runqueue_take(victim, h_decide, 0);
+}
+static inline void h_maybe_custom_steal(int prog, int W) { if (W >= 2 && prog % 5 == 4) myth_wsapi_set_stealfunc(h_custom_steal); }
